@@ -213,6 +213,7 @@ package massdb_v1
 //@ func (*MassDBV1).Plot
 //@   attr effect:fs.remove, lockinv
 //@   requires lock-entry: mdb != nil && !held[addr(mdb.stopLock)]
+//@   assert-at call Unlock a-new-plot-starts-with-an-open-stop-channel-and-can-be-stopped: !mdb.stopped && mdb.stopPlotCh != nil && !closed[mdb.stopPlotCh]
 //@ func CreateDB
 //@   attr effect:fs.remove
 //@ func CreateHashMap
